@@ -1,39 +1,97 @@
-"""Process-pool runner: one task per unit (class x configuration); workers return plain dicts."""
+"""Process runner: one forked process per unit (class x configuration), at most `procs` at a time, each under a hard
+wall-clock budget (z3's own timeout is soft: quantifier instantiation can ignore it) and a z3 memory cap.  Workers
+return plain dicts through a pipe.  A unit that exceeds its budget is UNDECIDED (never a verdict)."""
 import multiprocessing as mp
 import os
 import time
 import traceback
 
-_JOBS = []
+UNIT_BUDGET_S = {'quick': 150, 'thorough': 600}
 
 
-def _work(i):
-    kind, payload = _JOBS[i]
+def _work(kind, payload):
     try:
         if kind == 'fragment':
             from .fragver import verify_config, result_to_dict
             contract, cfg, both = payload
-            return i, result_to_dict(verify_config(contract, cfg, both=both))
+            return result_to_dict(verify_config(contract, cfg, both=both))
         if kind == 'call':
             fn, args = payload
-            return i, fn(*args)
+            return fn(*args)
         raise ValueError(kind)
     except Exception:
-        return i, {'unit': f'job{i}', 'crash': traceback.format_exc(), 'verdicts': [], 'ground': [], 'error': ('crash', traceback.format_exc()[-800:])}
+        return {'unit': 'job', 'crash': traceback.format_exc(), 'verdicts': [], 'ground': [], 'error': ('crash', traceback.format_exc()[-800:])}
 
 
-def run_jobs(jobs, procs=None):
+def _child(conn, kind, payload):
+    try:
+        import resource
+        lim = 6 * 1024 ** 3                        # address-space cap per worker: a runaway solver dies, the unit is UNDECIDED
+        resource.setrlimit(resource.RLIMIT_AS, (lim, lim))
+    except Exception:
+        pass
+    r = _work(kind, payload)
+    try:
+        conn.send(r)
+    except Exception:
+        conn.send({'unit': 'job', 'crash': 'result not picklable: ' + traceback.format_exc()[-400:], 'verdicts': [], 'ground': [],
+                   'error': ('crash', 'result not picklable')})
+    conn.close()
+
+
+def _label(kind, payload):
+    try:
+        if kind == 'fragment':
+            c, cfg, _ = payload
+            return f'fragment:{c.cls_name}[{c.label(cfg)}]'
+        fn, args = payload
+        c, cfg = args[0], args[1]
+        return f'runtime:{c.fn_name}[{c.label(cfg)}]'
+    except Exception:
+        return 'job'
+
+
+def run_jobs(jobs, procs=None, budget=None):
     """jobs: list of (kind, payload).  Returns results in job order."""
-    global _JOBS
-    _JOBS = list(jobs)
-    procs = procs or min(16, os.cpu_count() or 4, max(1, len(jobs)))
+    jobs = list(jobs)
+    budget = budget or UNIT_BUDGET_S.get(os.environ.get('VERIF_TIER_ACTIVE', 'quick'), 150)
+    procs = procs or min(16, os.cpu_count() or 4)
     out = [None] * len(jobs)
-    if procs <= 1 or len(jobs) <= 1:
-        for i in range(len(jobs)):
-            out[i] = _work(i)[1]
+    if procs <= 1:
+        for i, (k, p) in enumerate(jobs):
+            out[i] = _work(k, p)
         return out
     ctx = mp.get_context('fork')
-    with ctx.Pool(processes=procs) as pool:
-        for i, r in pool.imap_unordered(_work, range(len(jobs)), chunksize=1):
-            out[i] = r
+    pending = list(range(len(jobs)))
+    running = {}     # idx -> (proc, conn, t0)
+    while pending or running:
+        while pending and len(running) < procs:
+            i = pending.pop(0)
+            parent, child = ctx.Pipe(duplex=False)
+            p = ctx.Process(target=_child, args=(child, jobs[i][0], jobs[i][1]), daemon=True)
+            p.start()
+            child.close()
+            running[i] = (p, parent, time.time())
+        done = []
+        for i, (p, conn, t0) in running.items():
+            if conn.poll(0):
+                try:
+                    out[i] = conn.recv()
+                except EOFError:
+                    out[i] = {'unit': _label(*jobs[i]), 'verdicts': [], 'ground': [], 'error': ('crash', f'worker died (exit {p.exitcode})')}
+                done.append(i)
+            elif not p.is_alive():
+                out[i] = {'unit': _label(*jobs[i]), 'verdicts': [], 'ground': [], 'error': ('crash', f'worker died without a result (exit {p.exitcode}; memory cap?)')}
+                done.append(i)
+            elif time.time() - t0 > budget:
+                p.kill()
+                out[i] = {'unit': _label(*jobs[i]), 'verdicts': [], 'ground': [],
+                          'error': ('timeout', f'unit exceeded its wall-clock budget of {budget}s (solver did not honour its own timeout); no verdict')}
+                done.append(i)
+        for i in done:
+            p, conn, _ = running.pop(i)
+            p.join(timeout=1)
+            conn.close()
+        if not done:
+            time.sleep(0.01)
     return out
